@@ -252,7 +252,9 @@ def gen(rng, tier):
   for d in range(depth):
     levels.append({'scope': rng.choice(['', '', 'sa', 'sa/sb']),
                    'kind': rng.choice(['fn', 'fn', 'cls_init', 'cls_new',
-                                       'partial'])})
+                                       'partial']),
+                   # registered with a denylist / allowlist of its own
+                   'lists': rng.choice([None, None, 'deny', 'allow'])})
   site = rng.choice(SITES)
   return {'site': site, 'levels': levels, 'only': None,
           'sample': None if tier == 'thorough' else None}
@@ -356,9 +358,13 @@ def run(case):
       objs[names[d]] = gin.external_configurable(part, name=names[d],
                                                  module='ginsim_probes')
       continue
-    obj, _ = probes.compile_probe({'name': names[d], 'kind': kind, 'params': []},
-                                  hook)
-    objs[names[d]] = probes.register_probe({'name': names[d]}, obj)
+    lspec = {'name': names[d], 'kind': kind, 'params': []}
+    if lv.get('lists'):
+      lspec['params'] = [{'n': 'zz', 'k': 'def', 'd': None},
+                         {'n': 'yy', 'k': 'def', 'd': None}]
+      lspec['deny' if lv['lists'] == 'deny' else 'allow'] = ['zz']
+    obj, _ = probes.compile_probe(lspec, hook)
+    objs[names[d]] = probes.register_probe(lspec, obj)
   prod, _ = probes.compile_probe({'name': 'producer', 'kind': 'fn', 'params': []},
                                  hook)
   objs['producer'] = probes.register_probe({'name': 'producer'}, prod)
